@@ -6,6 +6,8 @@ optimum and all-huge scores under every SchedPool outcome; exact-arithmetic refe
 """
 import itertools
 import random
+
+import numpy as np
 from fractions import Fraction as Fr
 
 from mc.engine import hbfs, par, sched
@@ -24,6 +26,9 @@ FHUGE = [1e308, 1.5e308]                  # finite scores whose sums overflow to
 #                                           sum of mixed signs may overflow on the way although the exact sum is finite)        # large magnitude, small spread: exposes cancellation in one-pass formulas
 SHAPES = [('1', {'a': [1]}, 1), ('2', {'a': [1, 2]}, 2), ('3', {'a': [1, 2, 3]}, 3), ('2x2', {'a': [1, 2], 'b': [5, 6]}, 4)]
 
+# grids that list a value twice / values equal across types (two combinations that compare equal stay two combinations)
+EXTRA_SHAPES = [('dup', {'a': [3, 3, 1]}, 3), ('eqtype', {'a': [7, 7.0], 'b': [1]}, 2), ('dup2', {'a': [2, 5, 5]}, 3)]
+
 META = {
     'rule': 'serial leg: every assignment of a value to every (combination, repetition) cell x every mode x every shape '
             'with <= 6 cells; schedule leg: 30 selected tables x every SchedPool outcome; distinct_nontrivial counts '
@@ -41,7 +46,10 @@ META = {
                     'float (statistics.mean / variance return floats for non-integral results)',
                     'the best combination is judged on the scores as returned (first minimum / maximum), so float '
                     'rounding cannot create a disagreement between reference and implementation',
-                    'parameter names records and score are reserved by the documented result format and not used'],
+                    'parameter names records and score are reserved by the documented result format and not used',
+                    'the table score function tells repetitions apart by counting evaluations per process: in the enumerated-'
+                    'schedule legs all repetitions of a combination are assumed to run in one worker task (the legs with more '
+                    'workers than combinations use scores that depend on the parameters only)'],
 }
 
 
@@ -69,15 +77,16 @@ class GModel(Core.Model):
 class TableScore:
     """score_func: the r-th evaluation of combination (a, b) returns table[(a, b)][r]."""
 
-    def __init__(self, table):
+    def __init__(self, table, cyclic=0):
         self.table = table
         self.counts = {}
+        self.cyclic = cyclic
 
     def __call__(self, model):
         key = (model.a, model.b)
         r = self.counts.get(key, 0)
         self.counts[key] = r + 1
-        return self.table[key][r]
+        return self.table[key][r % self.cyclic if self.cyclic else r]
 
 
 def combos(params):
@@ -102,6 +111,8 @@ def exact(row, mode):
 
 
 def same_number(score, ex):
+    if isinstance(score, np.generic):
+        score = score.item()
     if isinstance(score, bool) or not isinstance(score, (int, float, Fr)):
         return False
     if isinstance(score, float) and (score != score or score in (float('inf'), float('-inf'))):
@@ -121,7 +132,7 @@ def same_number(score, ex):
 
 def run_search(case, cache=None):
     reset_library()
-    shape = {s[0]: s for s in SHAPES}[case['shape']]
+    shape = {s[0]: s for s in SHAPES + EXTRA_SHAPES}[case['shape']]
     params = {k: list(v) for k, v in shape[1].items()}
     cs = combos(params)
     given = dict(params)
@@ -132,7 +143,7 @@ def run_search(case, cache=None):
                       'range': range(1, len(vals) + 1), 'tuple': tuple(vals), 'legacy': LegacySeq(vals)}[src]
     reps, mode = case['reps'], ScoreMode(case['mode'])
     flat = case['table']
-    conv = float if case.get('float') else (lambda v: v)
+    conv = float if case.get('float') else getattr(np, case['np']) if case.get('np') else (lambda v: v)
     table = {c: [conv(flat[i * reps + r]) for r in range(reps)] for i, c in enumerate(cs)}
     procs = case.get('procs', 1)
     oc = case.get('outcome')
@@ -140,8 +151,8 @@ def run_search(case, cache=None):
         sched.install(Batching, (tuple(tuple(w) for w in oc[0]), tuple(oc[1])) if oc else None,
                       cache or sched.WorkerCache())
     try:
-        best, results = Batching.grid_search(GModel, given, TableScore(table), processes=procs, repetitions=reps,
-                                             mode=mode)
+        best, results = Batching.grid_search(GModel, given, TableScore(table, reps if case.get('cyclic') else 0),
+                                             processes=procs, repetitions=reps, mode=mode)
     finally:
         if procs != 1:
             sched.uninstall(Batching)
@@ -155,7 +166,7 @@ def run_search(case, cache=None):
         if not isinstance(res, dict) or set(res) != want_keys:
             raise Violation(f'{what}: result {i} has keys {sorted(res) if isinstance(res, dict) else res}',
                             expected=sorted(want_keys))
-        if res['a'] != c[0] or ('b' in params and res['b'] != c[1]):
+        if res['a'] != c[0] or type(res['a']) is not type(c[0]) or ('b' in params and res['b'] != c[1]):
             raise Violation(f'{what}: result {i} does not carry its own unmodified parameters', expected=list(c),
                             observed=[res.get('a'), res.get('b')])
         if list(res['records']) != table[c] or any(type(x) is not type(y) for x, y in zip(res['records'], table[c])):
@@ -577,6 +588,13 @@ def serial_cases(tier):
             if r1 is not r2:
                 for mode in range(8):
                     yield {'leg': 'serial_typed_rows', 'shape': '2', 'reps': 3, 'mode': mode, 'table': r1 + r2}
+    # scores that are numpy integer scalars (a count taken with ndarray.sum()): minimum, maximum and sum, values small
+    # enough for their type; zero and the type's minimum among them
+    for dt, vals in (('uint64', [0, 3, 7]), ('uint8', [0, 1, 9]), ('int8', [-128, 0, 5]), ('int64', [-2 ** 63, 0, 4])):
+        for name, nc in (('2', 2), ('3', 3)):
+            for flat in itertools.product(vals, repeat=nc):
+                for mode in (0, 1, 4, 5):
+                    yield {'leg': 'serial_numpy', 'shape': name, 'reps': 1, 'mode': mode, 'table': list(flat), 'np': dt}
     # parameter values given as one-shot iterables (generator, map, iterator): each value still evaluated once
     for src in ('generator', 'map', 'iter', 'range', 'tuple', 'legacy'):
         for mode in (0, 1):
@@ -616,18 +634,83 @@ def sched_cases():
                                'procs': p, 'outcome': [list(map(list, oc[0])), list(oc[1])]}
 
 
+def more_workers_cases():
+    """More worker processes than combinations; grids that list a value twice or hold values equal across types.  The
+    scores depend on the parameters only (every repetition of a combination scores the same row, cyclically)."""
+    # (constant rows: an implementation is free to spread the repetitions of one combination over several workers, and
+    # the table score function counts evaluations per process)
+    rows = {1: [4, 4, 4], 2: [1, 1, 1], 3: [6, 6, 6], 5: [7, 7, 7], 7: [3, 3, 3]}
+    for name, params, nc in [s for s in SHAPES if s[0] in ('2', '3')] + EXTRA_SHAPES:
+        for reps in (2, 3):
+            flat = []
+            for a in params['a']:
+                flat += rows[int(a)][:reps]
+            for p in (nc + 1, nc + 3):
+                for mode in (0, 1, 2, 5, 6, 7):
+                    yield {'leg': 'schedule', 'shape': name, 'reps': reps, 'mode': mode, 'table': flat, 'procs': p,
+                           'outcome': None, 'cyclic': True}
+
+
+class _Ledger:
+    value = 0
+
+
+def same_name_case(case):
+    """Two different model classes with the same qualified name (a class statement run twice with another body, a class
+    factory) are searched one after the other in one process: each search evaluates ITS class with ITS parameters."""
+    reset_library()
+
+    def make(version):
+        if version == 1:
+            class Growth(Core.Model):
+                def __init__(self, rate=1):
+                    super().__init__(seed=1)
+                    self.value = 10 * rate
+                    self.complete()
+        else:
+            class Growth(Core.Model):
+                def __init__(self, rate=1, decay=0, offset=0):
+                    super().__init__(seed=1)
+                    self.value = 10 * rate - 3 * decay + offset
+                    self.complete()
+        return Growth
+
+    grids = {1: ({'rate': [3, 1, 2]}, lambda rate: 10 * rate),
+             2: ({'rate': [1, 2], 'decay': [0, 5, 9], 'offset': [-1, 4]}, lambda rate, decay, offset: 10 * rate - 3 * decay + offset)}
+    n = 0
+    for version in case['order']:
+        grid, formula = grids[version]
+        names = list(grid)
+        combos_ = [dict(zip(names, vs)) for vs in itertools.product(*[grid[k] for k in names])]
+        for mode in (ScoreMode.MIN_SUM, ScoreMode.MAX_MEAN):
+            best, summary = Batching.grid_search(make(version), {k: list(v) for k, v in grid.items()}, lambda m: m.value,
+                                                 repetitions=2, mode=mode)
+            n += 1
+            scores = [formula(**c) for c in combos_]
+            if [{k: r[k] for k in names} for r in summary] != combos_ or [r['records'] for r in summary] != [[s_, s_] for s_ in scores]:
+                raise Violation(f'searches over classes of the same name in the order {case["order"]}: the search over version '
+                                f'{version} did not evaluate every combination with its own parameters',
+                                expected=[[s_, s_] for s_ in scores], observed=[r.get('records') for r in summary])
+            agg = [2 * s_ if mode == ScoreMode.MIN_SUM else s_ for s_ in scores]
+            want = agg.index(min(agg) if mode == ScoreMode.MIN_SUM else max(agg))
+            if best is not summary[want]:
+                raise Violation(f'searches over classes of the same name ({case["order"]}), version {version}, {mode.name}: best',
+                                expected=want, observed=[i for i, r in enumerate(summary) if r is best])
+    return n
+
+
 def chunk_fn(ctx, chunk):
     cache = sched.WorkerCache()
     serial_memo = {}
     for case in chunk:
-        if case['leg'] in ('limit', 'reused_list', 'traits', 'source_dict', 'start_method'):
+        if case['leg'] in ('limit', 'reused_list', 'traits', 'source_dict', 'start_method', 'same_name'):
             ctx.traces += 1
             ctx.states += 1
             ctx.transitions += 3
             try:
                 ctx.outcome(hbfs._guard({'limit': limit_case, 'reused_list': reused_list_case,
                                          'traits': traits_case, 'source_dict': source_dict_case,
-                                         'start_method': start_method_case}[case['leg']], case))
+                                         'start_method': start_method_case, 'same_name': same_name_case}[case['leg']], case))
             except Violation as v:
                 ctx.report(case, v)
             continue
@@ -671,9 +754,10 @@ def run(ctx):
     # cases that carry their whole story in one search first: a stale cache filled by EARLIER searches of the same
     # process makes later cases fail in a way that cannot be replayed on its own
     ser.sort(key=lambda c: c['leg'] not in ('serial_typed_rows', 'serial_mixed'))
-    sc = list(sched_cases())
+    sc = list(sched_cases()) + list(more_workers_cases())
     pr = list(pool_reuse_cases())
     lim = list(limit_cases()) + [{'leg': 'reused_list', 'procs': 1}, {'leg': 'source_dict', 'procs': 1}] + list(traits_cases())
+    lim += [{'leg': 'same_name', 'order': o} for o in ([1, 2], [2, 1], [1, 2, 1], [2, 2])]
     if not ctx.small:
         lim += [{'leg': 'start_method', 'method': 'spawn', 'limit': 3}, {'leg': 'start_method', 'method': 'forkserver', 'limit': 4}]
     first = [c for c in ser if c['leg'] == 'serial_typed_rows'] + [c for c in ser if c['leg'] == 'serial_mixed']
@@ -698,6 +782,9 @@ def replay(case):
         return
     if case['leg'] == 'source_dict':
         hbfs._guard(source_dict_case, case)
+        return
+    if case['leg'] == 'same_name':
+        hbfs._guard(same_name_case, case)
         return
     if case['leg'] == 'start_method':
         hbfs._guard(start_method_case, case)
